@@ -81,6 +81,12 @@ func (C19) Gen(r *simrt.RNG, tier string) core.Case {
 	negW := r.Chance(1, 4)
 	// op mix weights vary per run (swarm)
 	wAdd, wEdge, wRm, wRmE, wCopy, wRev, wOw := 3+r.Intn(4), 4+r.Intn(8), r.Intn(4), r.Intn(4), r.Intn(3), r.Intn(3), r.Intn(3)
+	if r.Chance(1, 8) {
+		// churn: long histories that keep removing and re-adding (whatever the structure
+		// does after many removals happens here), with a view or copy alive
+		wAdd, wRm, wRev, wCopy = 8+r.Intn(4), 8+r.Intn(4), 1+r.Intn(2), r.Intn(2)
+		n = 60 + r.Intn(90)
+	}
 	tot := wAdd + wEdge + wRm + wRmE + wCopy + wRev + wOw
 	if r.Chance(1, 5) {
 		// a reversed view taken of the still empty graph and dropped: it must not matter later
